@@ -423,8 +423,12 @@ class SMCSampler(MCMCSampler):
         )
         log_q = self.prior_flow.log_prob(samples.x)
         samples.log_q = samples.array_to_namespace(log_q)
-        samples.log_prior = self.log_prior(samples)
-        samples.log_likelihood = self.log_likelihood(samples)
+        # As at every other call site: the user's functions may answer in
+        # another namespace than the samples live in
+        samples.log_prior = samples.array_to_namespace(self.log_prior(samples))
+        samples.log_likelihood = samples.array_to_namespace(
+            self.log_likelihood(samples)
+        )
         log_prob = samples.log_p_t(
             beta=beta
         ).flatten() + samples.array_to_namespace(log_abs_det_jacobian)
